@@ -40,7 +40,8 @@ import (
 	"github.com/mgtv-tech/redis-GunYu/pkg/vfutil"
 )
 
-const vfC14Cp = checkpoint.BisyncCheckpointKeyPrefix + ":0a1b2c3d4e5f60718293a4b5"
+// name of the namespace the C14/C17 cases work on (the C17 migration harness switches it)
+var vfC14Cp = checkpoint.BisyncCheckpointKeyPrefix + ":0a1b2c3d4e5f60718293a4b5"
 
 type vfJRec struct {
 	kseq int64
@@ -55,6 +56,7 @@ type vfNS struct {
 	journal []vfJRec
 	index   [][2]int64 // score, kseq
 	latest  *checkpoint.BisyncCommitRecord
+	noMode  bool // do not seed the namespace mode marker
 }
 
 func vfC14Tag() string { return checkpoint.BisyncSlotTag(0) }
@@ -77,7 +79,9 @@ func (ns *vfNS) seed(tg *vfdoubles.Target) {
 		tg.Seed(ns.rootDb, "hset", vfC14Cp, ns.rootRid+"_runid", ns.rootRid, ns.rootRid+"_version", config.Version,
 			ns.rootRid+"_offset", strconv.FormatInt(ns.rootOff, 10), ns.rootRid+"_mtime", "1700000000000000000")
 	}
-	tg.Seed(0, "hset", vfC14Cp, "bisync_mode", "parallel")
+	if !ns.noMode {
+		tg.Seed(0, "hset", vfC14Cp, "bisync_mode", "parallel")
+	}
 	if ns.front != nil {
 		tg.Seed(0, vfArgs(checkpoint.BisyncFrontierKey(vfC14Cp), ns.front.HashArgs())...)
 	}
